@@ -1279,20 +1279,24 @@ class Driver(object, metaclass=DriverMetaclass):
                 if meta['equals'] is not None:
                     con_val -= meta['equals']
                 else:
-                    lower_viol_idxs = np.where(con_val < meta['lower'])[0]
-                    upper_viol_idxs = np.where(con_val > meta['upper'])[0]
-                    non_viol_idxs = np.where((con_val >= meta['lower'])
-                                             & (con_val <= meta['upper']))[0]
-                    con_val[lower_viol_idxs] -= meta['lower']
-                    con_val[upper_viol_idxs] -=  meta['upper']
-                    con_val[non_viol_idxs] = 0.0
+                    # lower and upper may be scalars or arrays with one entry per element
+                    lower = meta['lower']
+                    upper = meta['upper']
+                    con_val[:] = np.where(con_val < lower, con_val - lower,
+                                          np.where(con_val > upper, con_val - upper, 0.0))
 
             con_dict[name] = con_vec[name].copy()
 
         # If we computed violations, those were unscaled.
-        # Now scale them.
+        # Now scale them. A violation is the difference between a value and a bound, so the
+        # additive part of the scaling cancels: T(val) - T(bound) = T(viol) - T(0).
         if driver_scaling and viol:
+            zero_vec = OptimizerVector('constraint', np.zeros(con_vec.asarray().size),
+                                       con_vec._meta)
             self._autoscaler.apply_constraint_scaling(con_vec)
+            self._autoscaler.apply_constraint_scaling(zero_vec)
+            for name in con_dict:
+                con_dict[name] = con_vec[name] - zero_vec[name]
 
         return con_dict
 
